@@ -38,18 +38,28 @@ type Prog struct {
 	ModFuncs []*ssa.Function // every function (incl. anonymous) with source in module packages
 	AllFuncs map[*ssa.Function]bool
 
-	cg       *callgraph.Graph // lazily built VTA graph
-	rev      map[*ssa.Function][]struct {
+	cg  *callgraph.Graph // lazily built VTA graph
+	rev map[*ssa.Function][]struct {
 		From *ssa.Function
 		E    Edge
 	}
-	sentinels map[*ssa.Global]int
-	fstores   map[fieldKey][]*ssa.Store
-	refEdges map[*ssa.Function][]*ssa.Function
-	LoadS    float64
-	SSAS     float64
-	CGS      float64
-	Overlay  map[string][]byte
+	sentinels   map[*ssa.Global]int
+	fstores     map[fieldKey][]*ssa.Store
+	refEdges    map[*ssa.Function][]*ssa.Function
+	LoadS       float64
+	SSAS        float64
+	CGS         float64
+	Overlay     map[string][]byte
+	anchors     map[string]Fingerprint
+	revRen      map[string]string
+	anchorTab   *AnchorTable
+	canonDone   bool
+	canonField  map[*types.Var]string
+	canonGlobal map[string]string
+	canonType   map[*types.TypeName]string
+	typeNow     map[string]*types.TypeName
+	// Renames records anchors that were resolved through their fingerprint (old key → new function).
+	Renames map[string]string
 }
 
 // Load loads dir (default /repo) with the default build configuration.
@@ -111,6 +121,7 @@ func Load(dir string, overlay map[string][]byte) (*Prog, error) {
 	}
 	sort.Slice(p.ModFuncs, func(i, j int) bool { return FuncKey(p.ModFuncs[i]) < FuncKey(p.ModFuncs[j]) })
 	p.SSAS = time.Since(t1).Seconds()
+	current = p
 	return p, nil
 }
 
@@ -178,6 +189,16 @@ func ShortKey(f *ssa.Function) string {
 // Fn resolves a function or method. recv == "" for package-level functions.
 // Returns nil when it does not resolve (callers report anchor-lost).
 func (p *Prog) Fn(pkgPath, recv, name string) *ssa.Function {
+	if f := p.fnExact(pkgPath, recv, name); f != nil {
+		return f
+	}
+	if strings.HasPrefix(pkgPath, Module) {
+		return p.renamed(pkgPath, recv, name)
+	}
+	return nil
+}
+
+func (p *Prog) fnExact(pkgPath, recv, name string) *ssa.Function {
 	sp := p.SSAPkgs[pkgPath]
 	if sp == nil {
 		return nil
@@ -186,6 +207,10 @@ func (p *Prog) Fn(pkgPath, recv, name string) *ssa.Function {
 		return sp.Func(name)
 	}
 	tn, _ := sp.Pkg.Scope().Lookup(recv).(*types.TypeName)
+	if tn == nil {
+		p.canonNames()
+		tn = p.typeNow[pkgPath+"|"+recv]
+	}
 	if tn == nil {
 		return nil
 	}
@@ -213,6 +238,10 @@ func (p *Prog) Type(pkgPath, name string) *types.Named {
 		return nil
 	}
 	tn, _ := pk.Types.Scope().Lookup(name).(*types.TypeName)
+	if tn == nil {
+		p.canonNames()
+		tn = p.typeNow[pkgPath+"|"+name] // renamed since anchors.json was generated
+	}
 	if tn == nil {
 		return nil
 	}
